@@ -87,7 +87,36 @@ func mutate(r *sim.Rng, b []byte) ([]byte, string) {
 		return b, "identity"
 	}
 	cp := func() []field { return append([]field{}, fs...) }
-	switch r.Intn(14) {
+	switch r.Intn(17) {
+	case 14, 15:
+		// an unknown field INSIDE a sub-message (payload or signature): signature field 3+, any field 3+
+		g := cp()
+		want := protowire.Number(3)
+		if r.Bool() {
+			want = 2
+		}
+		for k := range g {
+			if g[k].num == want && g[k].typ == protowire.BytesType {
+				extra := protowire.AppendVarint(protowire.AppendTag(nil, protowire.Number(3+r.Intn(4)), protowire.VarintType), uint64(r.Intn(3)))
+				body := append(append([]byte{}, g[k].val...), extra...)
+				g[k].raw = protowire.AppendBytes(protowire.AppendTag(nil, want, protowire.BytesType), body)
+				if want == 3 {
+					return join(g), "unknown-field-inside-signature"
+				}
+				return join(g), "unknown-field-inside-payload-any"
+			}
+		}
+		return b, "identity"
+	case 16:
+		// the nonce re-stamped by a third party (canonical encoding, everything else untouched)
+		t := new(lib.Transaction)
+		if lib.Unmarshal(b, t) == nil {
+			t.Nonce = 1 + uint64(r.Intn(1000))
+			if v, e := lib.Marshal(t); e == nil {
+				return v, "restamped-nonce"
+			}
+		}
+		return b, "identity"
 	case 0:
 		return append(append([]byte{}, b...), 0x3a, 0x00), "append-empty-memo"
 	case 1:
